@@ -104,6 +104,16 @@ func (fr *Frame) stdlibCall(in *ssa.Call, callee *ssa.Function, args []*GVal) *G
 		use("unicode.ToUpper is total")
 		ex.p.DeclareFun("unicode.upper", []*Sort{SBV32}, SBV32)
 		return &GVal{T: App("unicode.upper", SBV32, fr.term(args[0])), Typ: in.Type()}
+	case "math.IsNaN":
+		use("math.IsNaN / math.IsInf are the IEEE-754 classifications")
+		return &GVal{T: App("fp.isNaN", SBool, fr.term(args[0])), Typ: in.Type()}
+	case "math.IsInf":
+		use("math.IsNaN / math.IsInf are the IEEE-754 classifications")
+		x := fr.term(args[0])
+		sg := fr.term(args[1])
+		inf := App("fp.isInfinite", SBool, x)
+		pos := App("fp.isPositive", SBool, x)
+		return &GVal{T: And(inf, Or(Eq(sg, IntLit(0)), And(Gt(sg, IntLit(0)), pos), And(Lt(sg, IntLit(0)), Not(pos)))), Typ: in.Type()}
 	case "math.Abs", "math.Ceil", "math.Floor":
 		use(name + " is the IEEE-754 operation")
 		x := fr.term(args[0])
@@ -373,6 +383,19 @@ func (fr *Frame) sortStable(in *ssa.Call, args []*GVal) *GVal {
 		// frame: Swap writes the elements of the slice held in items
 		f := c.fieldFresh["items"]
 		fr.oblige("frame", "sort.Stable-permutes-only-a-fresh-slice("+tn+".items)", []string{"C06", "C12", "C13"}, boolOr(f), in.Pos())
+		// termination: sort.Stable calls back into Less/Swap, whose measures must be below the caller's
+		for _, mname := range []string{"Less", "Swap"} {
+			cn := "(*" + tn + ")." + mname
+			if mc := p.cs.Funcs[cn]; mc != nil && p.sameSCC(ex.fname, cn) {
+				mf := p.funcs[cn]
+				vars := map[string]*GVal{}
+				if mf != nil && len(mf.Params) > 0 {
+					vars[mf.Params[0].Name()] = &GVal{T: ref, Typ: mf.Params[0].Type()}
+				}
+				envPre := &Env{fr: fr, vars: vars, st: ex.st, old: ex.st, oldVars: vars}
+				fr.checkMeasure(mc, "callback("+cn+")", envPre, in)
+			}
+		}
 		// effects: hasError may be set by Less; items is permuted
 		if hk := tn + ".hasError"; true {
 			fs := ex.heapFieldSort(tn, "hasError")
